@@ -428,6 +428,7 @@ type pexp struct {
 	Pat  string
 	L, R *pexp
 	B    bool // const
+	Sp   *sqlSpelt // cmp: another spelling of V (c12_spell.go); nil = sqlLit
 }
 
 var sqlCmpOps = []string{"=", "<>", "<", "<=", ">", ">="}
@@ -459,6 +460,12 @@ func (p *pexp) render(sc *sqlSchema, alias string, ps *sqlParams, rng *hx.Rng) s
 	}
 	switch p.K {
 	case "cmp":
+		if p.Sp != nil {
+			if p.Left {
+				return p.Sp.render(ps) + " " + p.Op + " " + col(p.Col)
+			}
+			return col(p.Col) + " " + p.Op + " " + p.Sp.render(ps)
+		}
 		if p.Left {
 			return sqlLit(p.V, ps, rng) + " " + p.Op + " " + col(p.Col)
 		}
@@ -1131,6 +1138,7 @@ type dmlSet struct {
 	Col  int
 	V    c15Val
 	Incr bool // col = col + V (INTEGER)
+	Sp   *sqlSpelt // another spelling of V (c12_spell.go); nil = sqlLit
 }
 
 type dml struct {
@@ -1139,15 +1147,20 @@ type dml struct {
 	Rows  [][]c15Val
 	Set   []dmlSet
 	Where *pexp
+	Spell map[[2]int]*sqlSpelt // (row, column index) -> another spelling of that VALUES entry (c12_spell.go)
 }
 
 func (d *dml) render(sc *sqlSchema, table string, ps *sqlParams, rng *hx.Rng) string {
 	switch d.K {
 	case "insert", "upsert", "insert-ocn":
 		var rows []string
-		for _, r := range d.Rows {
+		for ri, r := range d.Rows {
 			vs := make([]string, len(r))
 			for i, v := range r {
+				if sp := d.Spell[[2]int{ri, d.Cols[i]}]; sp != nil {
+					vs[i] = sp.render(ps)
+					continue
+				}
 				vs[i] = sqlLit(v, ps, rng)
 			}
 			rows = append(rows, "("+strings.Join(vs, ", ")+")")
@@ -1166,6 +1179,8 @@ func (d *dml) render(sc *sqlSchema, table string, ps *sqlParams, rng *hx.Rng) st
 		for _, s := range d.Set {
 			if s.Incr {
 				sets = append(sets, fmt.Sprintf("%s = %s + %s", sc.Cols[s.Col].Name, sc.Cols[s.Col].Name, sqlLit(s.V, ps, rng)))
+			} else if s.Sp != nil {
+				sets = append(sets, fmt.Sprintf("%s = %s", sc.Cols[s.Col].Name, s.Sp.render(ps)))
 			} else {
 				sets = append(sets, fmt.Sprintf("%s = %s", sc.Cols[s.Col].Name, sqlLit(s.V, ps, rng)))
 			}
@@ -1655,11 +1670,24 @@ func (v *sqlEnv) close() {
 	os.RemoveAll(v.dir)
 }
 
+// 0 = no limit. A runner may bound every query (sqlQuery) and autocommit call (sqlExec) it makes (C12: an index whose
+// indexer never catches up makes every later read wait forever; the call then fails with class "timeout").
+var sqlOpTimeout time.Duration
+
+func sqlOpCtx() (context.Context, context.CancelFunc) {
+	if sqlOpTimeout > 0 {
+		return context.WithTimeout(context.Background(), sqlOpTimeout)
+	}
+	return context.Background(), func() {}
+}
+
 func sqlErrClass(err error) string {
 	if err == nil {
 		return ""
 	}
 	switch {
+	case errors.Is(err, context.DeadlineExceeded):
+		return "timeout"
 	case errors.Is(err, store.ErrKeyAlreadyExists):
 		return "dup-key"
 	case errors.Is(err, sql.ErrNotNullableColumnCannotBeNull):
@@ -1745,7 +1773,8 @@ func sqlQuery(e *sql.Engine, tx *sql.SQLTx, q sqlText) (res sqlQRes) {
 			res = sqlQRes{Err: fmt.Sprintf("panic:%v at %s", p, sqlPanicSite())}
 		}
 	}()
-	ctx := context.Background()
+	ctx, cancel := sqlOpCtx()
+	defer cancel()
 	rd, err := e.Query(ctx, tx, q.SQL, q.Params)
 	if err != nil {
 		return sqlQRes{Err: sqlErrClass(err)}
@@ -1813,7 +1842,15 @@ func sqlExec(e *sql.Engine, tx *sql.SQLTx, q sqlText) (res sqlXRes) {
 			res = sqlXRes{Err: fmt.Sprintf("panic:%v at %s", p, sqlPanicSite())}
 		}
 	}()
-	ntx, ctxs, err := e.Exec(context.Background(), tx, q.SQL, q.Params)
+	// sqlOpTimeout only for autocommit calls: the context of the call that opens an explicit transaction stays with the
+	// transaction (OngoingTx.ctx), and so must not be cancelled when the call returns
+	ctx := context.Background()
+	if tx == nil && sqlOpTimeout > 0 && !strings.Contains(strings.ToUpper(q.SQL), "BEGIN") {
+		c, cancel := sqlOpCtx()
+		defer cancel()
+		ctx = c
+	}
+	ntx, ctxs, err := e.Exec(ctx, tx, q.SQL, q.Params)
 	res.Err = sqlErrClass(err)
 	res.Tx = ntx
 	res.Committed = len(ctxs)
